@@ -31,7 +31,7 @@ LEVEL_TEXT = ("Each of ~30 single faults (forcing not covering the window, frame
               "illegal subgrids) is injected into each of 8 base scenarios (quick) plus 400 random bases (thorough); the real start-up must refuse every one before the first step and write no record.")
 LEVEL_NOTE = "Single faults only. 'Refused' = SystemExit with a non-zero code or any other exception raised before the first Model.update; the fault-free base must complete, otherwise the case is void and not counted."
 RULE = ("case = (base, fault). Non-trivial: the base ran and the fault is really present in the files/configuration written (e.g. the unsorted frame times are read back); distinct by (base, fault).")
-MANDATORY = ["refused_before_first_step", "base_forward", "base_reversed", "base_multifile", "base_continuous", "subprocess_exit_status_checked", "fault_presence_verified"]
+MANDATORY = ["refused_before_first_step", "base_forward", "base_reversed", "base_multifile", "base_continuous", "subprocess_exit_status_checked", "fault_presence_verified", "fault_written_over_a_valid_setup"]
 ASSUMPTIONS = ["single faults (no combinations)"]
 TIMEOUT = {"quick": 1200, "thorough": 3500}
 
@@ -224,13 +224,23 @@ def run_case(case: dict[str, Any], wd: Path) -> dict[str, Any]:
     cnt: dict[str, int] = {}
     desc = dict(base={k: b[k] for k in ("id", "reversed", "multi", "cont", "ns", "frames", "files", "rel_steps")}, fault=fault)
     key = f"{b['id']}|{fault}"
-    res0, nupd0, nwrite0, nrec0, _p, _s = one_run(copy.deepcopy(b), None, wd / "base", False)
+    # the faulty set-up is written over the valid one: same directory, same file names, same process (what a user who edits
+    # or replaces files between two runs does)
+    shared = (b["id"] + FAULTS.index(fault)) % 2 == 0
+    res0, nupd0, nwrite0, nrec0, _p, _s = one_run(copy.deepcopy(b), None, wd / ("run" if shared else "base"), False)
+    if shared:
+        import shutil  # noqa: PLC0415
+
+        shutil.rmtree(wd / "run" / "world", ignore_errors=True)
+        for f_ in (wd / "run").glob("out*.nc"):
+            f_.unlink()
     if not res0.ok or nupd0 != b["ns"] or nrec0 == 0:
         return C.result([], sit, cnt, nontrivial=False, key=key, sample=desc, void=True, note=f"fault-free base did not run: {res0.exc}")
     sit["base_reversed" if b["reversed"] else "base_forward"] = 1
     sit["base_multifile"] = int(b["multi"])
     sit["base_continuous"] = int(b["cont"])
-    res, nupd, nwrite, nrec, present, status = one_run(copy.deepcopy(b), fault, wd / "fault", case["subprocess"])
+    res, nupd, nwrite, nrec, present, status = one_run(copy.deepcopy(b), fault, wd / ("run" if shared else "fault"), case["subprocess"])
+    sit["fault_written_over_a_valid_setup"] = int(shared)
     cnt["fault_runs"] = 1
     if not present:
         return C.result([], sit, cnt, nontrivial=False, key=key, sample=desc, void=True, note="fault not present in the generated files")
